@@ -773,9 +773,9 @@ package app
 //@ func (*app.App).calcActiveNodes
 //@   requires c20 [safety]: statesOK(app, clusterState) && clusterState[master] != nil
 //@ func (*app.App).calcActiveNodesChanges
-//@   loop 1 invariant dead: forall k string :: visited[k] && (!clusterState[k].PingOk || clusterState[k].SlaveState == nil) ==> contains(deadReplicas, k)
-//@   loop 2 invariant slaves: forall i int :: in_range(i, becomeActive) ==> clusterState[becomeActive[i]] != nil && clusterState[becomeActive[i]].SlaveState != nil
-//@   loop 3 invariant slaves: forall i int :: in_range(i, becomeActive) ==> clusterState[becomeActive[i]] != nil && clusterState[becomeActive[i]].SlaveState != nil
+//@   loop 1 invariant dead [C20]: forall k string :: visited[k] && (!clusterState[k].PingOk || clusterState[k].SlaveState == nil) ==> contains(deadReplicas, k)
+//@   loop 2 invariant slaves [C20]: forall i int :: in_range(i, becomeActive) ==> clusterState[becomeActive[i]] != nil && clusterState[becomeActive[i]].SlaveState != nil
+//@   loop 3 invariant slaves [C20]: forall i int :: in_range(i, becomeActive) ==> clusterState[becomeActive[i]] != nil && clusterState[becomeActive[i]].SlaveState != nil
 //@   requires c20 [safety]: statesOK(app, clusterState) && clusterState[master] != nil
 //@   requires c20list [safety]: forall i int :: in_range(i, activeNodes) ==> clusterState[activeNodes[i]] != nil
 //@   requires c20slaves [safety]: forall i int :: in_range(i, activeNodes) ==> clusterState[activeNodes[i]].SlaveState != nil || contains(oldActiveNodes, activeNodes[i]) || activeNodes[i] == master
@@ -852,7 +852,7 @@ package app
 //@   flags inline
 //@ func (*app.App).getMasterHost
 //@   ensures C20.master_is_key [C20]: result1 == nil && result0 != "" ==> has(clusterState, result0)
-//@   loop 1 invariant keys: forall i int :: in_range(i, masters) ==> has(clusterState, masters[i])
+//@   loop 1 invariant keys [C20]: forall i int :: in_range(i, masters) ==> has(clusterState, masters[i])
 //@ func (*app.App).ensureCurrentMaster
 //@   ensures C20.master_is_key [C20]: result1 == nil ==> has(clusterState, result0)
 //@ func (*app.App).leaveMaintenance
@@ -865,11 +865,11 @@ package app
 // are discharged at each call site from timingsOK
 //@ func (*app.App).calcActiveNodesChanges
 //@   ensures C20.changes_known [C20]: (forall i int :: in_range(i, becomeActive) ==> clusterState[becomeActive[i]] != nil) && (forall i int :: in_range(i, becomeInactive) ==> clusterState[becomeInactive[i]] != nil) && (forall i int :: in_range(i, becomeDataLag) ==> clusterState[becomeDataLag[i]] != nil)
-//@   loop 1 invariant synckeys: forall i int :: in_range(i, syncReplicas) ==> clusterState[syncReplicas[i]] != nil
-//@   loop 3 invariant known: (forall i int :: in_range(i, becomeInactive) ==> clusterState[becomeInactive[i]] != nil) && (forall i int :: in_range(i, dataLagging) ==> clusterState[dataLagging[i]] != nil)
+//@   loop 1 invariant synckeys [C20]: forall i int :: in_range(i, syncReplicas) ==> clusterState[syncReplicas[i]] != nil
+//@   loop 3 invariant known [C20]: (forall i int :: in_range(i, becomeInactive) ==> clusterState[becomeInactive[i]] != nil) && (forall i int :: in_range(i, dataLagging) ==> clusterState[dataLagging[i]] != nil)
 //@ func app.convertNodesToReplicationControllers
 //@   requires c20 [safety]: forall i int :: in_range(i, nodes) ==> nodes[i] != nil
-//@   loop 1 invariant nonnil: forall i int :: in_range(i, ifaceNodes) ==> ifaceNodes[i] != nil
+//@   loop 1 invariant nonnil [C20]: forall i int :: in_range(i, ifaceNodes) ==> ifaceNodes[i] != nil
 //@   ensures C20.convert_nonnil [C20]: forall i int :: in_range(i, result) ==> result[i] != nil
 //@ func app.NewOfflineModeFilter
 //@   requires c20 [safety]: cfg != nil && logger != nil
